@@ -300,7 +300,7 @@ impl Engine for C13 {
     }
     fn runs(&self, tier: Tier) -> u64 {
         match tier {
-            Tier::Quick => 60_000,
+            Tier::Quick => 40_000,
             Tier::Thorough => 1_500_000,
         }
     }
@@ -425,8 +425,18 @@ impl Engine for C13 {
             cx.st.inc("probe:pristine-rejected-by-own-type");
         }
 
-        // encode direction of the layer check, on every accepted value
+        // encode direction of the layer check, on every accepted value and on hand-modified copies
+        // of it (states that decoding never produces but the public fields allow)
+        let mut enc_subjects: Vec<(&'static Endpoint, Decoded)> = Vec::new();
         for (ep, d) in &accepting {
+            enc_subjects.push((*ep, d.clone()));
+            if ep.ty == ty {
+                for (_what, v) in d.variants() {
+                    enc_subjects.push((*ep, v));
+                }
+            }
+        }
+        for (ep, d) in &enc_subjects {
             let a = guarded(|| d.to_vec());
             let b = guarded(|| d.to_vec_via_value());
             cx.st.inc("evaluations");
